@@ -211,7 +211,7 @@ func runCheck(prog *Program, prop, tier, verif, only string, loadSecs float64, t
 	reports = append(reports, extraReports...)
 
 	genSecs := time.Since(t0).Seconds() - loadSecs
-	results := solveAll(items, filepath.Join(work, "smt"), timeout, needAll, 8)
+	results := solveAll(items, filepath.Join(work, "smt"), timeout, needAll, 12)
 
 	// retry failures once with a longer budget before judging (solver instability is not a violation)
 	for i, r := range results {
@@ -225,6 +225,8 @@ func runCheck(prog *Program, prop, tier, verif, only string, loadSecs float64, t
 	bySolver := map[string]int{}
 	solverSecs := 0.0
 	nObl, nDis, nViol, nKnown, nVacuous := 0, 0, 0, 0, 0
+	nUnreach := 0
+	var unreach []string
 	var samples []any
 	var violLines []string
 	for _, r := range results {
@@ -237,6 +239,13 @@ func runCheck(prog *Program, prop, tier, verif, only string, loadSecs float64, t
 		rec := oblRecord{Name: o.Name, Class: o.Class, Status: r.Status, Solver: r.Solver, Seconds: round3(r.Seconds), Clause: o.Desc, At: fmt.Sprintf("%s:%d", strings.TrimPrefix(o.Pos.Filename, prog.repo+"/"), o.Pos.Line), SMTSize: sz}
 		records = append(records, rec)
 		solverSecs += r.Seconds
+		if o.Vacuity && o.Class == "vacuity-ret" {
+			if r.Status == "unsat" {
+				nUnreach++
+				unreach = append(unreach, fmt.Sprintf("%s (%s:%d)", o.Name, strings.TrimPrefix(o.Pos.Filename, prog.repo+"/"), o.Pos.Line))
+			}
+			continue
+		}
 		if o.Vacuity {
 			if r.Status == "unsat" {
 				nVacuous++
@@ -348,6 +357,7 @@ func runCheck(prog *Program, prop, tier, verif, only string, loadSecs float64, t
 			"vcgen_seconds":            round3(genSecs),
 			"undecided_functions":      undecided,
 			"vacuous_functions":        nVacuous,
+			"unreachable_returns":      unreach,
 			"known_findings_still_failing": nKnown,
 			"violations":               nViol,
 			"obligation_results":       records,
@@ -362,8 +372,13 @@ func runCheck(prog *Program, prop, tier, verif, only string, loadSecs float64, t
 	b, _ := json.MarshalIndent(ev, "", " ")
 	os.WriteFile(filepath.Join(verif, "evidence", prop+".json"), b, 0o644)
 
-	fmt.Printf("govc: %s tier=%s functions=%d obligations=%d discharged=%d violations=%d known=%d undecided=%d vacuous=%d load=%.1fs vcgen=%.1fs solver=%.1fs wall=%.1fs\n",
-		prop, tier, len(targets), nObl, nDis, nViol, nKnown, undecided, nVacuous, loadSecs, genSecs, solverSecs, wall)
+	fmt.Printf("govc: %s tier=%s functions=%d obligations=%d discharged=%d violations=%d known=%d undecided=%d vacuous=%d unreachable_returns=%d load=%.1fs vcgen=%.1fs solver=%.1fs wall=%.1fs\n",
+		prop, tier, len(targets), nObl, nDis, nViol, nKnown, undecided, nVacuous, nUnreach, loadSecs, genSecs, solverSecs, wall)
+	if nUnreach > 0 && os.Getenv("GOVC_VERBOSE") != "" {
+		for _, u := range unreach {
+			fmt.Println("UNREACHABLE-RETURN", u)
+		}
+	}
 	if nObl == 0 {
 		fmt.Printf("govc: no obligations generated for %s — nothing is claimed\n", prop)
 	}
